@@ -18,9 +18,13 @@ RULE = ("exposure stream: every zoo entry (37 registrations - value, pointer, on
         "were stored) followed by valid objects with every subset of fields (quick: none, each single one, all), nulls, {} - "
         "on the same route, another method, another entry; protobuf: every ordered pair of 9 bodies (partial, unknown field, "
         "wrong wire type, good field then truncation / invalid UTF-8) through CallWithSerialize and through the dispatching "
-        "service; f4 stream: 1 (quick) / 9 (thorough) three-op cases addressing a notify-shaped method with a completion "
+        "service; rejection stream: every zoo entry Build() refuses (unnamed type, unexported type name, no handler-shaped method, value "
+        "with pointer-receiver handlers) x 4 valid entries asking for the SAME group name (explicit name / the valid entry's own "
+        "type name / a constant naming function) x 7 orders of register-bad / register-good / register-duplicate / Build / "
+        "rebuild, each Build followed by HasMethod, GetArgType and a call for every route of every registered entry (quick: "
+        "a third of it); f4 stream: 1 (quick) / 9 (thorough) three-op cases addressing a notify-shaped method with a completion "
         "function / request id (plus 2 in the corpus); "
-        "random: 1-4 registrations (group collisions, register-after-build, no build), 4-15 ops with real / mutated / random "
+        "random: 1-4 registrations (one in six of an entry Build() refuses; group collisions, register-after-build, no build), 4-15 ops with real / mutated / random "
         "/ special routes, encoded / field-wise (omitted / good / wrong-typed / null fields) / protobuf-partial / malformed / random / empty payloads, nil serializer; every third random case is a "
         "dispatch case (1-3 collections, random dispatcher order per request). Non-trivial = some HasMethod answered true or "
         "some call / request produced an event (method invocation, completion or response); distinct = distinct op sequences.")
